@@ -1,6 +1,16 @@
 use std::ops::{Deref, DerefMut};
+#[cfg(not(rten_verif = "shuttle_pool"))]
 use std::sync::Mutex;
+#[cfg(not(rten_verif = "shuttle_pool"))]
 use std::sync::atomic::{AtomicUsize, Ordering};
+
+// Under `--cfg 'rten_verif="shuttle_pool"'` the pool's synchronisation
+// primitives are replaced by Shuttle's, whose scheduler decides every
+// interleaving (external verification tooling).
+#[cfg(rten_verif = "shuttle_pool")]
+use shuttle::sync::Mutex;
+#[cfg(rten_verif = "shuttle_pool")]
+use shuttle::sync::atomic::{AtomicUsize, Ordering};
 
 use rten_gemm::{PackedAMatrix, PackedBMatrix};
 use rten_tensor::storage::{Alloc, CowData};
